@@ -267,7 +267,7 @@ def run_config(chk, config):
         ginfo = {"bad": [], "unassigned_paths": 0}
 
         def on_loop(frame, head, H, res, havoc, lid):
-            if frame.key != a.avp_greedy["key"] or eg.mute:
+            if eg.mute or not in_ctx(frame, a.avp_greedy) or not record_loop(res, H.ntrace):
                 return
             for b in res["back"]:
                 evs = b.events()[H.ntrace:]
@@ -324,6 +324,10 @@ def run(chk):
     Sub(chk, "via C05 | ", lambda k: k.startswith(("layout", "by-length", "min-length")) and any(x in k for x in kinds)
         ).borrow(c05, "default", 6, "enumerated kinds' decoder layouts")
     Sub(chk, "via C15 | ", lambda k: True).borrow(c15, "default", 6, "error propagation to the message level")
+    # "every named value encodes to its RFC number": the field is emitted whenever the value is present (C06 layouts)
+    import rules.c06 as c06
+    Sub(chk, "via C06 | ", lambda k: k in ("payload | MessageType", "payload | ResultCode", "payload | ProxyAuthenType")
+        ).borrow(c06, "default", 3, "enumerated kinds' encoder layouts")
     if chk.tier == "thorough":
         for cfg in ("debug", "release"):
             run_config(chk, cfg)
